@@ -468,6 +468,8 @@ fn mk(verb: &str, k: usize, base: u16) -> Option<Request> {
         "UpgradeWorker" => rt(RequestType::UpgradeWorker(3)),
         "LaunchWorker" => rt(RequestType::LaunchWorker("x".into())),
         "ReloadConfiguration" => rt(RequestType::ReloadConfiguration(String::new())),
+        "QueryCertificatesFromTheState" => rt(RequestType::QueryCertificatesFromTheState(sozu_command_lib::proto::command::QueryCertificatesFilters::default())),
+        "QueryHealthChecks" => rt(RequestType::QueryHealthChecks(sozu_command_lib::proto::command::QueryHealthChecks { cluster_id: Some(format!("cluster_{}", k % 3)) })),
         _ => None,
     }
 }
@@ -810,6 +812,16 @@ fn run(case: &Case, out: &mut Out) {
                         }
                         out.obs(&[tn(fin), tn(pr)]);
                         let worker_ok = statuses.first() == Some(&OK);
+                        // a verb no worker code handles (main-process verbs, no request_type) must be refused,
+                        // not acknowledged: nothing was done (theorem unserved_request_is_refused)
+                        const MAIN_ONLY: [&str; 14] = [
+                            "None", "SaveState", "LoadState", "ListWorkers", "ListFrontends", "ListListeners", "CountRequests",
+                            "SubscribeEvents", "UpgradeMain", "UpgradeWorker", "LaunchWorker", "ReloadConfiguration",
+                            "QueryCertificatesFromTheState", "QueryHealthChecks",
+                        ];
+                        if fin == 1 && worker_ok && MAIN_ONLY.contains(&verb.as_str()) {
+                            out.viol("unserved-ok", &format!("{verb} {k}: a request no worker code handles was answered OK"));
+                        }
                         wk.probe(&verb, k, master_ok, worker_ok, out);
                     }
                     None => {
